@@ -244,6 +244,7 @@ func (s *ibtpScenario) seal() *ibtpBlock {
 	}
 	b := &ibtpBlock{height: h, ops: s.cur, receipts: rs, meta: meta}
 	s.cur = nil
+	checkRouterDelivery(s.w.N, h, meta, s.fail)
 	var d []string
 	for i, op := range b.ops {
 		d = append(d, fmt.Sprintf("%s:%v", op.kind, rs[i].IsSuccess()))
@@ -353,5 +354,108 @@ func drawIndex(t *rapid.T, next uint64, label string) uint64 {
 		return 0
 	default:
 		return rapid.SampledFrom([]uint64{1, 1 << 63, ^uint64(0)}).Draw(t, label+"-big")
+	}
+}
+
+// checkRouterDelivery compares what the interchain router hands to the pier of every chain for block h — on request
+// (GetInterchainTxWrappers) and pushed (AddPier + PutBlockAndMeta) — with the block's delivery metadata: the
+// transactions listed in Counter[chain] in order, and the timeout and one-to-many notices of that chain as they are.
+// A notice that is in the metadata but never reaches the pier has not been delivered.
+func checkRouterDelivery(n *sim.Node, h uint64, meta *pb.InterchainMeta, failf func(string, ...interface{})) {
+	chains := map[string]bool{}
+	for c := range meta.Counter {
+		chains[c] = true
+	}
+	for c := range meta.TimeoutCounter {
+		chains[c] = true
+	}
+	for c := range meta.MultiTxCounter {
+		chains[c] = true
+	}
+	if len(chains) == 0 {
+		return
+	}
+	block, err := n.Ledger.GetBlock(h, true)
+	if err != nil {
+		failf("router check: block %d not readable: %v", h, err)
+		return
+	}
+	rt := n.Router()
+	names := keysOf(chains)
+	pushed := map[string]chan *pb.InterchainTxWrappers{}
+	for _, c := range names {
+		ch, err := rt.AddPier(c)
+		if err != nil {
+			failf("router AddPier(%s): %v", c, err)
+		}
+		pushed[c] = ch
+	}
+	rt.PutBlockAndMeta(block, meta)
+	slice := func(m map[string]*pb.StringSlice, c string) []string {
+		if m[c] == nil {
+			return nil
+		}
+		return m[c].Slice
+	}
+	check := func(path, c string, ws *pb.InterchainTxWrappers) {
+		if ws == nil || len(ws.InterchainTxWrappers) != 1 {
+			failf("router %s for %s at height %d: expected one wrapper, got %v", path, c, h, ws)
+			return
+		}
+		w := ws.InterchainTxWrappers[0]
+		if w.Height != h {
+			failf("router %s for %s: wrapper of height %d for block %d", path, c, w.Height, h)
+		}
+		if got, want := strings.Join(w.TimeoutIbtps, ","), strings.Join(slice(meta.TimeoutCounter, c), ","); got != want {
+			failf("router %s for %s at height %d delivers timeout notices [%s], the block's metadata lists [%s]", path, c, h, got, want)
+		}
+		if got, want := strings.Join(w.MultiTxIbtps, ","), strings.Join(slice(meta.MultiTxCounter, c), ","); got != want {
+			failf("router %s for %s at height %d delivers one-to-many notices [%s], the block's metadata lists [%s]", path, c, h, got, want)
+		}
+		var want []string
+		if vs := meta.Counter[c]; vs != nil {
+			for _, vi := range vs.Slice {
+				if int(vi.Index) < len(block.Transactions.Transactions) {
+					want = append(want, fmt.Sprintf("%s/%v", block.Transactions.Transactions[vi.Index].GetHash().String(), vi.Valid))
+				} else {
+					failf("delivery set of %s at height %d lists position %d of a block with %d transactions", c, h, vi.Index, len(block.Transactions.Transactions))
+				}
+			}
+		}
+		var got []string
+		for _, vt := range w.Transactions {
+			if vt.Tx == nil {
+				got = append(got, "nil")
+				continue
+			}
+			got = append(got, fmt.Sprintf("%s/%v", vt.Tx.GetHash().String(), vt.Valid))
+		}
+		if strings.Join(got, ",") != strings.Join(want, ",") {
+			failf("router %s for %s at height %d delivers transactions %v, the block's delivery set lists %v", path, c, h, got, want)
+		}
+	}
+	for _, c := range names {
+		ch := make(chan *pb.InterchainTxWrappers, 4)
+		if err := rt.GetInterchainTxWrappers(c, h, h, ch); err != nil {
+			failf("router GetInterchainTxWrappers(%s,%d): %v", c, h, err)
+			continue
+		}
+		var last *pb.InterchainTxWrappers
+		cnt := 0
+		for ws := range ch {
+			last = ws
+			cnt++
+		}
+		if cnt != 1 {
+			failf("router GetInterchainTxWrappers(%s,%d,%d) answered %d messages", c, h, h, cnt)
+		}
+		check("on request", c, last)
+		select {
+		case ws := <-pushed[c]:
+			check("push", c, ws)
+		default:
+			failf("router pushed nothing to the pier of %s for block %d", c, h)
+		}
+		rt.RemovePier(c)
 	}
 }
